@@ -214,7 +214,7 @@ func flvSession(sc *flvScenario, tw *TraceWriter, tmp string) {
 		if release != nil {
 			// everything is queued: let the peer read, and wait until the queue has been written out
 			close(release)
-			for t0 := time.Now(); conn.Units() < nwrites && time.Since(t0) < 10*time.Second; {
+			for t0 := time.Now(); conn.Units() < nwrites && time.Since(t0) < 1500*time.Millisecond; {
 				time.Sleep(200 * time.Microsecond)
 			}
 		}
